@@ -70,6 +70,7 @@ def run(repo, rep, tier):
 
     r5 = rep.rule('C12.R5', 'error messages of the class resolver/provider '
                   'code can be built (well-formed format strings)')
+    new_class_is_stored_whole(repo, rep)
     operation_parameters_are_used(
         repo, rep, 'C12.R14', lambda n: 'Class' in n or 'Qualifier' in n)
     # hierarchies built by MOF compilation: the flavors written on a
@@ -1066,3 +1067,59 @@ def inherited_elements_marked_unconditionally(repo, rep):
                         'propagated=False on themselves or their qualifiers '
                         '(visible from the third level of a hierarchy on)'
                         % (norm(mk, 40), norm(t, 40)))
+
+
+def new_class_is_stored_whole(repo, rep):
+    """C12.R16: CreateClass / ModifyClass resolve and store the class the
+    caller handed in - every property, method and qualifier of it.  Which
+    elements are inherited is decided by the resolver from the superclass,
+    not by flags on the input (a class obtained with GetClass carries
+    propagated=True on the elements it *overrides*, too): a provider that
+    removes elements from its working copy before resolving it replaces
+    the class's own declarations by the ancestor's - the nearest
+    declaration no longer wins.  So between the copy of the input and the
+    write to the class store nothing is deleted from the copy's element
+    dictionaries."""
+    r16 = rep.rule('C12.R16', 'CreateClass / ModifyClass remove no element '
+                   'from the class they store')
+    mp = repo.cls(MAIN, 'MainProvider')
+    ELEMS = ('properties', 'methods', 'qualifiers', 'parameters')
+    n = 0
+    for name in ('CreateClass', 'ModifyClass'):
+        f = mp.methods.get(name)
+        if f is None:
+            raise AnalysisError('MainProvider.%s vanished' % name)
+        writes = [c for c in walk_no_nested(f.node)
+                  if isinstance(c, ast.Call) and
+                  isinstance(c.func, ast.Attribute) and
+                  c.func.attr in ('create', 'update') and
+                  norm(c.func.value).endswith('class_store') and
+                  len(c.args) == 2]
+        if not writes:
+            raise AnalysisError('%s: write to the class store not found'
+                                % name)
+        stored = {norm(c.args[1]) for c in writes}
+        n += 1
+        r16.sites += 1
+        r16.functions.add(f.fq)
+        bad = []
+        for st in walk_no_nested(f.node):
+            tgt = None
+            if isinstance(st, ast.Delete):
+                for t in st.targets:
+                    if isinstance(t, ast.Subscript):
+                        tgt = t.value
+            elif isinstance(st, ast.Call) and \
+                    isinstance(st.func, ast.Attribute) and \
+                    st.func.attr in ('pop', 'popitem', 'clear'):
+                tgt = st.func.value
+            if isinstance(tgt, ast.Attribute) and tgt.attr in ELEMS and \
+                    norm(tgt.value) in stored:
+                bad.append(st)
+        r16.ob(not bad, name, {'stored': sorted(stored)})
+        for st in bad[:2]:
+            rep.finding(r16, f.qualname, norm(st, 70), 'element-removed',
+                        MAIN, st.lineno,
+                        'an element is removed from the class that is about '
+                        'to be resolved and stored: what the caller declared '
+                        'is replaced by what the superclass declares')
